@@ -14,7 +14,7 @@ Flavours == { [ty |-> 1, min |-> 0, fl |-> 0], [ty |-> 2, min |-> 1, fl |-> 1],
               [ty |-> 3, min |-> 0, fl |-> 5], [ty |-> 1, min |-> 1, fl |-> 255] }
 \* Chaos handler: replies exactly once, with or without a continuation; RESTART only without
 \* (a first attempt whose body fails its own validation writes nothing and is followed by the real reply)
-ChaosOps == { <<"reply">>, <<"next", "reply">>, <<"restart">>, <<"badreply", "reply">>, <<"next", "badreply", "reply">> }
+ChaosOps == { <<"reply">>, <<"next", "reply">>, <<"restart">>, <<"badreply", "reply">>, <<"next", "badreply", "reply">>, <<"xreply">> }
 OkPackets  == { p \in { [sid |-> s, seq |-> q, ty |-> f.ty, min |-> f.min, fl |-> f.fl, rd |-> "ok", ops |-> o] :
                          s \in SID, q \in SEQS, f \in Flavours, o \in ChaosOps } :
                 p.ops = <<"restart">> => p.ty = 1 }       \* RESTART is an authentication status
